@@ -184,10 +184,15 @@ impl Monitor for C04 {
         let exp = if agg.distinct {
             if exp.iter().any(|g| g.keep == Keep::Maybe || (g.keep == Keep::Yes && g.cells.iter().any(|c| !c.singleton_value()))) { return Verdict::Inconclusive("distinct-over-ambiguous-cells".into()); }
             let mut seen: Vec<Vec<RV>> = Vec::new();
+            let mut cellless: Vec<Vec<RV>> = Vec::new();
             let mut out = Vec::new();
             for mut g in exp {
                 if g.keep == Keep::Yes {
                     let row: Vec<RV> = g.cells.iter().map(|c| c.vals[0].clone()).collect();
+                    // (a group covered by the open finding - no aggregate has a value - may print no row: whether a later equal
+                    // row is then the first occurrence or a duplicate is not decidable here)
+                    if g.no_aggregate_has_a_value { if seen.iter().any(|s| tuple_eq(s, &row)) { g.keep = Keep::No; } else { cellless.push(row); } out.push(g); continue; }
+                    if cellless.iter().any(|s| tuple_eq(s, &row)) { return Verdict::Inconclusive("distinct-after-a-group-without-values".into()); }
                     if seen.iter().any(|s| tuple_eq(s, &row)) { g.keep = Keep::No; }
                     // equal only up to rounding (two REAL results a few ulps apart): whether they are duplicates depends on the arithmetic, not decidable here
                     else if seen.iter().any(|s| s.iter().zip(row.iter()).all(|(a, b2)| a.same(b2, 1e-9))) { return Verdict::Inconclusive("distinct-over-nearly-equal-reals".into()); }
